@@ -1,0 +1,34 @@
+//go:build verif
+
+package mongodb
+
+import (
+	"github.com/orda-io/orda/client/pkg/errors"
+	"github.com/orda-io/orda/client/pkg/iface"
+	"go.mongodb.org/mongo-driver/mongo"
+	"go.mongodb.org/mongo-driver/mongo/options"
+)
+
+// NewWithClientOptions is New with caller-supplied driver options (custom dialer, no credentials).
+// Verification hook: compiled only with -tags verif.
+func NewWithClientOptions(ctx iface.OrdaContext, option *options.ClientOptions, dbName string) (*RepositoryMongo, errors.OrdaError) {
+	client, err := mongo.Connect(ctx, option)
+	if err != nil {
+		return nil, errors.ServerDBQuery.New(ctx.L(), err.Error())
+	}
+	if err = client.Ping(ctx, nil); err != nil {
+		return nil, errors.ServerDBQuery.New(ctx.L(), err.Error())
+	}
+	db := client.Database(dbName)
+	repo := &RepositoryMongo{
+		db:     db,
+		client: client,
+		MongoCollections: &MongoCollections{
+			mongoClient: client,
+		},
+	}
+	if err := repo.InitializeCollections(ctx); err != nil {
+		return nil, err
+	}
+	return repo, nil
+}
